@@ -657,6 +657,11 @@ def values_script(g):
             # an update of ANOTHER attribute, then the whole item is read again
             ops.append(dict(op="update", client="c", table="tbl", key={"h": it["h"]}, expr="SET touched = :t", names={}, values={":t": S("yes")}))
             ops.append(dict(op="get", client="c", table="tbl", key={"h": it["h"]}))
+    if r.random() < 0.3:
+        # an item owns an attribute literally named like the value placeholder of the reads below: it comes back whole,
+        # and the reads still find it by its key
+        ops.append(dict(op="put", client="c", table="tbl", item={"h": S("k0"), ":h": S("not the key"), ":v": N("5"), "a": g.value(2)}))
+        ops.append(dict(op="scan", client="c", table="tbl", filter="h = :h", names={}, values={":h": S("k0")}))
     ops.append(dict(op="scan", client="c", table="tbl"))
     ops.append(dict(op="query", client="c", table="tbl", keycond="h = :h", names={}, values={":h": S("k0")}))
     ops.append(dict(op="batch_get", client="c", requests={"tbl": [{"h": S("k0")}, {"h": S("k1")}]}))
@@ -1016,6 +1021,10 @@ def native_script(g):
         else:
             if r.random() < 0.5: ops.append(dict(op="set_interpreter", client="c"))
             else: ops.append(dict(op="activate_native", client="c"))
+        if r.random() < 0.12:
+            # the table is emptied: its registrations, and the interpreter it is on, stay
+            ops.append(dict(op="clear_table", **base))
+            ops.append(dict(op="put", item={"h": S(r.choice("ab")), "g": S("v"), "x": S("y")}, **base))
         if r.random() < 0.3: ops.append(dict(op="get", key={"h": S(r.choice("ab"))}, **base))
         if r.random() < 0.2:
             # a registration that arrives late, for a text that has been used before (and fell back): it counts from now on,
